@@ -119,7 +119,7 @@ def ro_operations(w, S, uni):
     n = S["bv"]
     vs = [v for v in range(1, n + 1) if P.qdom(S, v)]
     allq = len(vs) == n
-    full = all(0 not in S["ends"][e] for e in range(S["nl"]))
+    full = P.whole(S)
     yes2 = lambda e, v: True
     yes1 = lambda e: True
     yesv = lambda v: True
@@ -329,7 +329,7 @@ def handed_out(w, S, uni):
     law0 = UniverseLaws(edge_whitelist={})          # an EMPTY whitelist is a whitelist too (not None)
     law.twin = law0                                  # (kept reachable for the snapshot and the tables below)
     out.append(("UniverseLaws.edge_whitelist(empty)", lambda: law0.edge_whitelist))
-    if all(P.qdom(S, v) for v in range(1, n + 1)) and all(0 not in S["ends"][e] for e in range(S["nl"])) and n:
+    if all(P.qdom(S, v) for v in range(1, n + 1)) and P.whole(S) and n:
         for name, fn in (("bft", breadthfirst.bft), ("dft_recursive", depthfirst.dft_recursive), ("dft_iterative", depthfirst.dft_iterative)):
             out.append((f"{name}(1)", lambda fn=fn: fn(uni, w.o(1), direction_sensitive=1, unknown_handling=1)))
     return out, [uni, uni2, law], law
